@@ -75,10 +75,7 @@ type jqF struct {
 func (f *jqF) text() string {
 	switch f.Kind {
 	case "path":
-		if len(f.Path) == 0 {
-			return "."
-		}
-		return "." + strings.Join(f.Path, ".")
+		return g4PathText(f.Path)
 	case "lit":
 		b, _ := json.Marshal(f.Lit)
 		s := string(b)
@@ -108,6 +105,33 @@ func (f *jqF) text() string {
 		return strings.Join(ps, ",")
 	}
 	return "?"
+}
+
+// g4PathText: `.a.b` for keys that are identifiers; any other key (blanks, dots, ...) in the
+// bracket form with a string literal: `.data["k k"]`, `.["k k"].x`.
+func g4PathText(p []string) string {
+	if len(p) == 0 {
+		return "."
+	}
+	var sb strings.Builder
+	for i, k := range p {
+		ident := k != ""
+		for j, r := range k {
+			if !(r == '_' || (r >= 'a' && r <= 'z') || (r >= 'A' && r <= 'Z') || (j > 0 && r >= '0' && r <= '9')) {
+				ident = false
+			}
+		}
+		if ident {
+			sb.WriteString("." + k)
+			continue
+		}
+		b, _ := json.Marshal(k)
+		if i == 0 {
+			sb.WriteString(".")
+		}
+		sb.WriteString("[" + string(b) + "]")
+	}
+	return sb.String()
 }
 
 func (f *jqF) ast() any {
